@@ -12,6 +12,7 @@ from core import proto, oracle
 from .common import case, guarded
 
 ID = "C09"
+COVER_FILES = ['instances/preflibinstance/matching.py']
 RULE = ("exhaustive: every non-empty directed graph (self-loops, antiparallel edges) on node sets {1}, {1,2}, {1,2,3} "
         "with weights drawn from a palette of special doubles; random: up to 14 nodes (thorough: up to 60) with ids up to "
         "10^18, edges inserted in random order through add_edge, overwritten edges (add_edge twice with another weight), "
